@@ -90,7 +90,7 @@ def bounded(tier, seed):
 
 
 LEVEL = "other"
-EXPLANATION = ("Proved: FileRegistrar.register_complete distributes (appends) exactly one manifest entry per change of the CURRENT version and none for a repeat "
+EXPLANATION = ("Proved: FileManager.add_named_file copies the given file in once and registers it once under the given name with the fingerprint of the copied bytes; FileRegistrar.register_complete distributes (appends) exactly one manifest entry per change of the CURRENT version and none for a repeat "
                "(comparison with the last entry only; witness clauses make 'back to an older version' a change). Bounded: operation sequences on the real "
                "FileManager against the abstract view the property gives (content addressing, immutability, fresh-instance agreement).")
-ASSUMPTIONS = ["shutil.copy / os.rename / hashlib are external; _fingerprint and _copy_in are covered only by the bounded sequences"]
+ASSUMPTIONS = ["shutil.copy / os.rename / hashlib are external; the bodies of _fingerprint and _copy_in are covered only by the bounded sequences"]
